@@ -187,6 +187,10 @@ class C13(Harness):
             Ln = choice("L", 1, 3)
             inp["z"] = fresh_reals(ctx, "z", Ln)
             inp["d"] = ctx.fresh_int("d")
+            if k == "boxcox" and bool(ctx.fresh_bool("int_series")):
+                # count data: an integer-typed positive series (the transformed values are real all the same)
+                inp["ytr"] = [ctx.fresh_int("yi%d" % i) for i in range(n)]
+                inp["z"] = [ctx.fresh_int("zi%d" % i) for i in range(Ln)]
             if k in ("boxcox", "log"):
                 for v in inp["ytr"] + inp["z"]:
                     ctx.assume(v > 0)  # positive series, as the transformers require
